@@ -58,7 +58,7 @@ def tlc_failed(rc, out):
 
 def _validate_shard(args):
     spec, cfg, path, idx = args
-    rc, out = run_tlc(spec, cfg, workers=1, env={"TRACE_FILE": path}, tag=f"shard{idx}")
+    rc, out = run_tlc(spec, cfg, workers=1, env={"TRACE_FILE": path}, tag=f"shard{idx}", heap="3g")
     verdicts = {}
     for line in out.splitlines():
         m = _VERDICT.match(line.strip())
@@ -76,7 +76,8 @@ def validate_traces(traces, spec="Trace_Ledger.tla", cfg=None, shards=None):
         cfg = os.path.join(common.SPEC, spec.replace(".tla", ".cfg"))
     if not traces:
         return [], 0, 0
-    shards = shards or min(common.NCPU, max(1, len(traces) // 50))
+    # at most 16 shards for small batches, and never more than 3000 traces per shard (one TLC process reads a shard's JSON at once)
+    shards = shards or max(min(common.NCPU, max(1, len(traces) // 50)), (len(traces) + 2999) // 3000)
     per = (len(traces) + shards - 1) // shards
     jobs = []
     offsets = []
